@@ -18,10 +18,10 @@
      rotations x       [x; rotT x; ...; rotT^(n-1) x],  n = nstr (snd x)
      back n k          (n - k) mod n *)
 From Coq Require Import List NArith ZArith.
-From DSD Require Import Proofs.Assoc.
+From DSD Require Import Proofs.Assoc Model.Canon.
 From DSD Require Import Base.Str Base.Errors Model.ComplexUtils Model.Rotation
   Proofs.RotLoc Proofs.RotTree Proofs.RotPairs Proofs.RotOnce Proofs.RotOrbit Proofs.RotStrands
-  Proofs.RotGen.
+  Proofs.RotGen Proofs.RotTurns.
 Import ListNotations.
 
 (* rotate_complex_once never fails on a well-formed aligned complex and returns a
@@ -164,3 +164,108 @@ Theorem C07_generators_rotate_complex_db : forall sq sst, goodNE (sq, sst) ->
   rotate_complex_db sq sst = Ok (map (fun k => Nat.iter (back n k) rotT (sq, sst)) (List.seq 0 n)).
 Proof. exact rotate_complex_db_spec. Qed.
 Print Assumptions C07_generators_rotate_complex_db.
+
+(* ------------------------------------------------------------------ *)
+(* Explicit turn counts (every Python int).  Vocabulary (Proofs/RotTurns.v):
+     rcount t n k   forced steps carried by the k-th element of rotate_complex_pt(turns=t):
+                    k if n <= t and t - n <= k, else k + 1  (the level turns = n is never rotated)
+     inv n j        (n - j mod n) mod n: j forced steps of the pt family = inv n j
+                    applications of rotate_complex_once
+     obj_count t    S (Z.to_nat (t - 1)) = max(t, 1) *)
+
+(* rotate_complex_pt(stab, ptab, turns): t = max(turns, 0) elements (n for None), the k-th
+   carrying rcount t n k steps, on ANY tables with at least two rows ... *)
+Theorem C07_turns_pt_tables : forall t (st : list (list pstr)) pt, 1 < length pt ->
+  rotate_complex_pt t st pt
+  = map (fun k => Nat.iter (rcount t (length pt) k) stepP (st, pt)) (List.seq 0 t).
+Proof. exact rotate_complex_pt_turns_many. Qed.
+Print Assumptions C07_turns_pt_tables.
+
+(* ... and t unrotated copies for at most one row *)
+Theorem C07_turns_pt_tables_single : forall t (st : list (list pstr)) pt, length pt <= 1 ->
+  rotate_complex_pt t st pt = map (fun _ => (st, pt)) (List.seq 0 t).
+Proof. exact rotate_complex_pt_turns_single. Qed.
+Print Assumptions C07_turns_pt_tables_single.
+
+(* on the tables of a complex: the k-th element is the table pair of the
+   (inv n (rcount t n k))-fold rotate_complex_once; turns = None, negative, 0, < n, n, > n *)
+Theorem C07_turns_rotate_complex_pt : forall x (turns : option Z), goodNE x ->
+  let n := nstr (snd x) in
+  let t := match turns with None => n | Some z => Z.to_nat z end in
+  rotate_complex_pt_turns turns (fst (tabs x)) (snd (tabs x))
+  = map (fun k => tabs (Nat.iter (inv n (rcount t n k)) rotT x)) (List.seq 0 t).
+Proof. exact rotate_complex_pt_turns_Z. Qed.
+Print Assumptions C07_turns_rotate_complex_pt.
+
+(* rotate_complex_db(seq, sst, turns): never fails, same enumeration *)
+Theorem C07_turns_rotate_complex_db : forall sq sst (turns : option Z), goodNE (sq, sst) ->
+  let n := nstr sst in
+  let t := match turns with None => n | Some z => Z.to_nat z end in
+  rotate_complex_db_turns sq sst turns
+  = Ok (map (fun k => Nat.iter (inv n (rcount t n k)) rotT (sq, sst)) (List.seq 0 t)).
+Proof. exact rotate_complex_db_turns_spec. Qed.
+Print Assumptions C07_turns_rotate_complex_db.
+
+(* the three regimes of rcount, and periodicity of the step count *)
+Theorem C07_turns_rcount : forall t n k,
+  (t < n -> rcount t n k = S k) /\ rcount n n k = k /\
+  (n <= t -> k < t - n -> rcount t n k = S k) /\ (n <= t -> t - n <= k -> rcount t n k = k).
+Proof.
+  exact (fun t n k => conj (rcount_below t n k) (conj (rcount_exact n k)
+           (conj (rcount_above_early t n k) (rcount_above_late t n k)))).
+Qed.
+Print Assumptions C07_turns_rcount.
+
+Theorem C07_turns_period : forall n j, inv n (j + n) = inv n j.
+Proof. exact inv_period. Qed.
+Print Assumptions C07_turns_period.
+
+(* the model with turns = None is the rotate_complex_db of the C06/C07 model, and the
+   explicit count n is the turns = None enumeration (both utility generators) *)
+Theorem C07_turns_db_none : forall sq sst, rotate_complex_db_turns sq sst None = rotate_complex_db sq sst.
+Proof. exact rotate_complex_db_turns_None. Qed.
+Print Assumptions C07_turns_db_none.
+
+Theorem C07_turns_db_n_is_none : forall sq sst, goodNE (sq, sst) ->
+  rotate_complex_db_turns sq sst (Some (Z.of_nat (nstr sst))) = rotate_complex_db sq sst.
+Proof. exact rotate_complex_db_turns_n. Qed.
+Print Assumptions C07_turns_db_n_is_none.
+
+Theorem C07_turns_pt_n_is_none : forall x, goodNE x ->
+  rotate_complex_pt_turns (Some (Z.of_nat (nstr (snd x)))) (fst (tabs x)) (snd (tabs x))
+  = rotate_complex_pt_turns None (fst (tabs x)) (snd (tabs x)).
+Proof. exact rotate_complex_pt_turns_n. Qed.
+Print Assumptions C07_turns_pt_n_is_none.
+
+(* ComplexS.rotate(turns=t) / rotate_pt(turns=t): max(t, 1) elements, the k-th being the
+   k-fold rotate_complex_once (resp. its tables) *)
+Theorem C07_turns_obj_rotate : forall sq sst (t : Z), goodNE (sq, sst) ->
+  obj_rotate sq sst (Some t) = Ok (map (fun k => Nat.iter k rotT (sq, sst)) (List.seq 0 (obj_count t))).
+Proof. exact obj_rotate_turns_spec. Qed.
+Print Assumptions C07_turns_obj_rotate.
+
+Theorem C07_turns_obj_rotate_pt : forall sq sst (t : Z), goodNE (sq, sst) ->
+  obj_rotate_pt sq sst (Some t)
+  = Ok (map (fun k => tabs (Nat.iter k rotT (sq, sst))) (List.seq 0 (obj_count t))).
+Proof. exact obj_rotate_pt_turns_spec. Qed.
+Print Assumptions C07_turns_obj_rotate_pt.
+
+Theorem C07_turns_obj_n_is_none : forall sq sst, goodNE (sq, sst) ->
+  obj_rotate sq sst (Some (Z.of_nat (nstr sst))) = obj_rotate sq sst None /\
+  obj_rotate_pt sq sst (Some (Z.of_nat (nstr sst))) = obj_rotate_pt sq sst None.
+Proof. exact obj_rotate_turns_n. Qed.
+Print Assumptions C07_turns_obj_n_is_none.
+
+(* the object family is periodic with period n *)
+Theorem C07_turns_obj_periodic : forall x k, good x ->
+  Nat.iter (k + nstr (snd x)) rotT x = Nat.iter k rotT x /\
+  Nat.iter k rotT x = Nat.iter (k mod nstr (snd x)) rotT x.
+Proof. exact obj_rotate_periodic. Qed.
+Print Assumptions C07_turns_obj_periodic.
+
+(* the object record of Model/Canon.v (C02/C03) computes the same generator *)
+Theorem C07_turns_cobj_rotate : forall o (t : nat), goodNE (Canon.o_seq o, Canon.o_struct o) ->
+  Canon.cobj_rotate o t
+  = Ok (map (fun k => Nat.iter k rotT (Canon.o_seq o, Canon.o_struct o)) (List.seq 0 (S (t - 1)))).
+Proof. exact cobj_rotate_spec. Qed.
+Print Assumptions C07_turns_cobj_rotate.
